@@ -1,7 +1,7 @@
 /-
 C18 — property theorems.
 -/
-import Otel.C18.Lemmas
+import Otel.C18.Collect
 namespace Otel.C18
 open Otel Otel.C18
 
@@ -128,6 +128,151 @@ theorem getName_no_dup_total (esc : Bytes → Bytes) (cfg : Cfg) (name unit : By
     exact List.append_cancel_right ht
   · left; simp [ha]
 
+/-- Legality of every exposed family name, for ALL inputs inside the statement's domain: for every escape function that
+satisfies the contract `EscLegal` (proved for the concrete underscore escaping: `escUnderscore_contract`), every
+configuration whose namespace is admissible (`nsOK`; `withNamespace_ok` shows WithNamespace always produces one), every
+API-legal instrument name, every unit (known, unknown, empty) and every type, the family name is a legal metric name of
+the validation scheme in force (legacy: `[a-zA-Z_:][a-zA-Z0-9_:]*`; UTF-8: non-empty valid UTF-8). -/
+theorem familyName_legal (esc : Bytes → Bytes) (hesc : Spec.EscLegal esc) (cfg : Cfg) (name unit : Bytes) (typ : MType)
+    (hname : Spec.apiLegalName name = true) (hns : Spec.nsOK cfg = true) :
+    metricNameOK cfg.legacy (Spec.refName esc cfg name unit typ) = true := by
+  obtain ⟨hne, hasc⟩ := apiLegal_facts hname
+  obtain ⟨hu1, hu2⟩ := unitPart_facts cfg unit (cfg.ns ++ Spec.core esc cfg name typ)
+  obtain ⟨ht1, ht2⟩ := totalPart_facts cfg typ
+  unfold metricNameOK Spec.refName
+  unfold Spec.nsOK at hns
+  cases hl : cfg.legacy with
+  | true =>
+    simp only [hl, if_true, Bool.or_eq_true, beq_iff_eq] at hns ⊢
+    obtain ⟨hcne, hcl⟩ := core_facts_legacy hesc cfg name typ hl hne
+    have hpre : legacyMetricAux true (cfg.ns ++ Spec.core esc cfg name typ) = true := by
+      rcases hns with h | h
+      · rw [h]; simpa using hcl
+      · by_cases hnil : cfg.ns = []
+        · rw [hnil]; simpa using hcl
+        · exact legacyMetricAux_concat h (legacyMetricAux_mono _ hcl) hnil
+    have hprene : cfg.ns ++ Spec.core esc cfg name typ ≠ [] := by simp [hcne]
+    have h2 := legacyMetricAux_concat hpre hu1 hprene
+    have h2ne : cfg.ns ++ Spec.core esc cfg name typ ++ Spec.unitPart cfg unit (cfg.ns ++ Spec.core esc cfg name typ) ≠ [] := by
+      simp [hcne]
+    have h3 := legacyMetricAux_concat h2 ht1 h2ne
+    simp only [h3, Bool.and_true, bne_iff_ne, ne_eq]
+    simp [hcne]
+  | false =>
+    simp only [hl, Bool.false_eq_true, if_false] at hns ⊢
+    obtain ⟨hcne, hca⟩ := core_facts_utf8 esc cfg name typ hl hne hasc
+    have hrest : Spec.isAscii (Spec.core esc cfg name typ ++ Spec.unitPart cfg unit (cfg.ns ++ Spec.core esc cfg name typ) ++
+        Spec.totalPart cfg typ) = true := by
+      rw [isAscii_append, isAscii_append, hca, hu2, ht2]; rfl
+    have hv := validString_ascii _ hrest
+    have : cfg.ns ++ Spec.core esc cfg name typ ++ Spec.unitPart cfg unit (cfg.ns ++ Spec.core esc cfg name typ) ++
+        Spec.totalPart cfg typ = cfg.ns ++ (Spec.core esc cfg name typ ++
+        Spec.unitPart cfg unit (cfg.ns ++ Spec.core esc cfg name typ) ++ Spec.totalPart cfg typ) := by
+      simp [List.append_assoc]
+    rw [this, validString_append hns, hv, Bool.and_true, bne_iff_ne, ne_eq]
+    simp [hcne]
+
+/-- the concrete escape function (model of model.EscapeName with underscore escaping) satisfies the contract -/
+theorem escUnderscore_contract : Spec.EscLegal escUnderscore := escUnderscore_legal
+
+/-- WithNamespace always yields an admissible namespace (legacy: for every argument; UTF-8: for valid UTF-8) -/
+theorem withNamespace_ok (esc : Bytes → Bytes) (hesc : Spec.EscLegal esc) (legacy wu wc : Bool) (ns : Bytes)
+    (hv : legacy = false → Utf8.validString ns = true) :
+    Spec.nsOK ⟨legacy, wu, wc, withNamespace esc legacy ns⟩ = true := by
+  unfold Spec.nsOK withNamespace
+  have hus : legacyMetricAux true underscore = true := by decide
+  cases legacy with
+  | true =>
+    simp only [if_true, Bool.or_eq_true, beq_iff_eq]
+    right
+    by_cases hn : ns = []
+    · rw [hn, hesc.1]
+      have : hasSuffix [] underscore = false := by decide
+      simp only [this, Bool.false_eq_true, if_false, List.nil_append, hus]
+    · obtain ⟨h1, h2⟩ := hesc.2 ns hn
+      split
+      · exact h2
+      · exact legacyMetricAux_concat h2 (legacyMetricAux_mono _ hus) h1
+  | false =>
+    simp only [Bool.false_eq_true, if_false]
+    have hvn := hv rfl
+    split
+    · exact hvn
+    · rw [validString_append hvn]; decide
+
+/-- "ends with the unit suffix followed by the counter `_total` suffix", for every unit of the table (and every name,
+namespace, scheme): with units enabled, the family name ends with `<suffix>` ++ totalPart (= `<suffix>_total` for
+monotonic counters with counter suffixes enabled, `<suffix>` otherwise). Together with `getName_no_dup_unit` /
+`getName_carried_unit` / `getName_carried_total` / `getName_no_dup_total`: neither suffix is duplicated. -/
+theorem getName_ends_unit_total (esc : Bytes → Bytes) (cfg : Cfg) (name unit s : Bytes) (typ : MType)
+    (hs : unitSuffix unit = some s) (hu : cfg.withoutUnits = false) :
+    Spec.endsWith (Spec.refName esc cfg name unit typ) (s ++ Spec.totalPart cfg typ) = true := by
+  rw [endsWith_iff]
+  unfold Spec.refName
+  simp only
+  generalize cfg.ns ++ Spec.core esc cfg name typ = pre
+  have h1 : s <:+ pre ++ Spec.unitPart cfg unit pre := by
+    unfold Spec.unitPart
+    rw [hs]
+    simp only [hu, Bool.not_false, Bool.true_and]
+    by_cases he : Spec.endsWith pre s = true
+    · simp only [he, Bool.not_true, Bool.false_eq_true, if_false, List.append_nil]
+      exact (endsWith_iff _ _).mp he
+    · have he' : Spec.endsWith pre s = false := by simpa using he
+      simp only [he', Bool.not_false, if_true]
+      exact ⟨pre ++ b "_", by simp [List.append_assoc]⟩
+  obtain ⟨t, ht⟩ := h1
+  exact ⟨t, by rw [← ht]; simp [List.append_assoc]⟩
+
+/-- Everything the model sends is legal: whatever the inputs (also outside the statement's domain), a series that is
+sent has a legal family name, legal label names (scheme in force, no reserved `__` prefix) and no label name twice —
+the model of NewDesc refuses anything else, which then is *not* sent. -/
+theorem emitted_is_legal (esc : Bytes → Bytes) (legacy : Bool) (name help : Bytes) (typ : MType) (extra : List KV)
+    (p : Point) (e : Emitted) (h : emitPoint esc legacy name help typ extra p = some e) :
+    metricNameOK legacy e.name = true ∧ e.labels.all (fun kv => labelNameOK legacy kv.1) = true ∧
+    nodupKeys (e.labels.map (·.1)) = true := by
+  unfold emitPoint at h
+  simp only at h
+  split at h
+  · cases h
+  · rename_i hd
+    have hd' : descOK legacy name (getAttrs esc legacy p.attrs ++ extra) = true := by simpa using hd
+    unfold descOK at hd'
+    simp only [Bool.and_eq_true] at hd'
+    have hfields : e.name = name ∧ e.labels = getAttrs esc legacy p.attrs ++ extra := by
+      cases hp : p.payload with
+      | num q => simp only [hp, Option.some.injEq] at h; subst h; exact ⟨rfl, rfl⟩
+      | hist c sq bs cs => simp only [hp, Option.some.injEq] at h; subst h; exact ⟨rfl, rfl⟩
+      | expo sq dp =>
+        simp only [hp, Option.map_eq_some_iff] at h
+        obtain ⟨n, _, hn⟩ := h
+        subst hn; exact ⟨rfl, rfl⟩
+    rw [hfields.1, hfields.2]
+    exact ⟨hd'.1.1, hd'.1.2, hd'.2⟩
+
+/-- … and inside the domain nothing is refused: a legal family name (`familyName_legal`) and an admissible attribute set
+(`Spec.labelsAdmissible`, the validity predicate of the run-time oracle) make the series present — for sums, gauges and
+explicit histograms always, for exponential histograms iff the native conversion succeeds (F28). Its labels are the
+sanitised/merged attributes followed by the scope and resource-constant labels. -/
+theorem emitPoint_present (esc : Bytes → Bytes) (legacy : Bool) (name help : Bytes) (typ : MType) (extra : List KV)
+    (p : Point) (hname : metricNameOK legacy name = true)
+    (hadm : Spec.labelsAdmissible esc legacy p.attrs (extra.map (·.1)) = true)
+    (hexpo : ∀ sumq dp, p.payload = Payload.expo sumq dp → (expoToNative dp).isSome = true) :
+    ∃ e, emitPoint esc legacy name help typ extra p = some e ∧ e.labels = getAttrs esc legacy p.attrs ++ extra := by
+  obtain ⟨h1, h2⟩ := labels_of_admissible esc legacy p.attrs extra hadm
+  have hd : descOK legacy name (getAttrs esc legacy p.attrs ++ extra) = true := by
+    unfold descOK; rw [hname, h1, h2]; rfl
+  unfold emitPoint
+  simp only [hd, Bool.not_true, Bool.false_eq_true, if_false]
+  cases hp : p.payload with
+  | num q => exact ⟨_, rfl, rfl⟩
+  | hist c sq bs cs => exact ⟨_, rfl, rfl⟩
+  | expo sq dp =>
+    have := hexpo sq dp hp
+    cases hn : expoToNative dp with
+    | none => rw [hn] at this; cases this
+    | some n => simp only [hn, Option.map_some]; exact ⟨_, rfl, rfl⟩
+
 /-- Legacy scheme, merging of attribute keys that collide after sanitisation: the label set is a function of the
 attribute *set* — independent of the order in which the attributes are visited (`attrs₁ ~ attrs₂`) and of Go's map
 iteration order (`out₁`, `out₂` are arbitrary permutations of what the model emits). Holds for every escape function. -/
@@ -173,6 +318,34 @@ theorem attrs_merge_spec (esc : Bytes → Bytes) (attrs out : List KV) (h : out.
     have hm' := h.mem_iff.mpr hm
     exact List.mem_map.mpr ⟨_, hm', rfl⟩
 
+/-- … and no attribute value is lost: for every attribute, the label named by its sanitised key holds the `;`-join of a
+sorted permutation of *all* values whose keys collide on that name (slices.Sort(vals): sorted as strings), and the
+attribute's own value is among them. Holds for whatever order the labels are emitted in. -/
+theorem attrs_no_value_lost (esc : Bytes → Bytes) (attrs out : List KV) (h : out.Perm (getAttrsLegacy esc attrs)) :
+    ∀ kv ∈ attrs, ∃ vs, out.lookup (esc kv.1) = some (joinSemi vs) ∧ vs.Perm (Spec.groupVals esc attrs (esc kv.1)) ∧
+      vs.Pairwise (fun x y => bytesLe x y = true) ∧ kv.2 ∈ vs := by
+  intro kv hkv
+  have nd : (out.map (·.1)).Nodup := ((h.map (·.1)).nodup_iff).mpr (attrs_keys_nodup esc attrs)
+  have hg : kv.2 ∈ Spec.groupVals esc attrs (esc kv.1) := by
+    unfold Spec.groupVals
+    exact List.mem_map.mpr ⟨kv, List.mem_filter.mpr ⟨hkv, by simp⟩, rfl⟩
+  have hne : (Spec.groupVals esc attrs (esc kv.1)).isEmpty = false := by
+    cases hgv : Spec.groupVals esc attrs (esc kv.1) with
+    | nil => rw [hgv] at hg; simp at hg
+    | cons _ _ => rfl
+  refine ⟨sortBytes (Spec.groupVals esc attrs (esc kv.1)), ?_, sortBytes_perm _, sortBytes_pairwise _,
+    (sortBytes_perm _).mem_iff.mpr hg⟩
+  have hl : (getAttrsLegacy esc attrs).lookup (esc kv.1) =
+      some (joinSemi (sortBytes (Spec.groupVals esc attrs (esc kv.1)))) := by
+    rw [attrs_lookup]; unfold Spec.mergedValue; simp [hne]
+  have hm := (mem_iff_lookup _ _ _ (attrs_keys_nodup esc attrs)).mpr hl
+  exact (mem_iff_lookup _ _ _ nd).mp (h.mem_iff.mpr hm)
+
+/-- Each label name occurs once (whatever the emission order). -/
+theorem attrs_label_names_unique (esc : Bytes → Bytes) (attrs out : List KV) (h : out.Perm (getAttrsLegacy esc attrs)) :
+    (out.map (·.1)).Nodup :=
+  ((h.map (·.1)).nodup_iff).mpr (attrs_keys_nodup esc attrs)
+
 /-- Explicit-bucket histograms: the exposed cumulative buckets (one per bound, the implicit `+Inf` bucket being the
 exposed count) de-cumulate to exactly the SDK's bucket counts; bounds and count are unchanged. For every SDK data
 point shape (`len(BucketCounts) = len(Bounds)+1`, `Count = Σ BucketCounts` — C07's invariants). -/
@@ -209,6 +382,38 @@ theorem expo_offset_faithful (dp : ExpoDP) (hrange : Spec.F28_applies dp = false
     simp only [hrange, Bool.false_eq_true, if_false, sum_native _ _ _ hp, sum_native _ _ _ hn, hcount, bne_self_eq_false]
   · unfold Spec.expoFaithful
     simp [sideFaithful_native _ _ hp, sideFaithful_native _ _ hn]
+
+/-- Values, one data point: whatever is sent for a data point that satisfies the SDK's invariants carries exactly the
+SDK's values — counter/gauge sample = the data point's value; histogram: the exposed cumulative buckets de-cumulate to
+the SDK's bucket counts, `_sum` and `_count` equal; native histogram: schema, zero count, count, sum equal and every
+bucket at index offset+i+1 (`Spec.payloadFaithful`, the run-time oracle). -/
+theorem emitPoint_values_faithful (esc : Bytes → Bytes) (legacy : Bool) (name help : Bytes) (typ : MType)
+    (extra : List KV) (p : Point) (e : Emitted) (h : emitPoint esc legacy name help typ extra p = some e)
+    (hv : Spec.pointDataValid p.payload = true) : Spec.payloadFaithful p.payload e.payload = true := by
+  unfold emitPoint at h
+  simp only at h
+  split at h
+  · cases h
+  · cases hp : p.payload with
+    | num q =>
+      simp only [hp, Option.some.injEq] at h; subst h
+      simp [Spec.payloadFaithful]
+    | hist c sq bs cs =>
+      simp only [hp, Option.some.injEq] at h; subst h
+      rw [hp] at hv
+      simp only [Spec.pointDataValid, Bool.and_eq_true, beq_iff_eq] at hv
+      simp only [Spec.payloadFaithful, beq_self_eq_true, Bool.true_and]
+      exact hist_cumulative_faithful bs cs c hv.1 hv.2
+    | expo sq dp =>
+      simp only [hp, Option.map_eq_some_iff] at h
+      obtain ⟨n, hn, he⟩ := h
+      subst he
+      rw [hp] at hv
+      simp only [Spec.pointDataValid, List.all_eq_true, decide_eq_true_eq] at hv
+      obtain ⟨hf, hc⟩ := expoToNative_some hn hv
+      obtain ⟨n', hn', hfaith⟩ := expo_offset_faithful dp hf hv hc
+      rw [hn] at hn'; cases hn'
+      simp [Spec.payloadFaithful, hfaith]
 
 /-- F28 (known finding), witness: one measurement aggregated at the SDK's default maximum scale 20 is not exposed. -/
 theorem expo_F28_witness :
@@ -275,38 +480,242 @@ loop sends carries the help and type of the cache entry of its family name, whic
 changes. (Registry.Gather's "has help … but should have …" / type mismatch errors cannot be triggered by Collect.) -/
 theorem collect_family_consistent (esc : Bytes → Bytes) (cfg : Cfg) (extra : List KV) :
     ∀ (insts : List Inst) (fams : List Fam), ∀ e ∈ (collectInsts esc cfg extra fams insts).2,
-      (collectInsts esc cfg extra fams insts).1.find? (fun f => f.name == e.name) = some ⟨e.name, e.help, e.typ⟩ := by
-  intro insts
-  induction insts with
-  | nil => intro fams e he; simp [collectInsts] at he
-  | cons i rest ih =>
-    intro fams e he
-    unfold collectInsts at he ⊢
-    simp only at he ⊢
-    cases hn : getName esc cfg i.name i.unit i.dtype.mtype with
-    | none => simp [hn] at he
-    | some name =>
-      simp only [hn] at he ⊢
-      cases hv : validate fams name i.desc i.dtype.mtype with
+      (collectInsts esc cfg extra fams insts).1.find? (fun f => f.name == e.name) = some ⟨e.name, e.help, e.typ⟩ :=
+  collectInsts_consistent esc cfg extra
+
+/-- Provenance of a whole model scrape: everything Collect sends is the target info metric (only when enabled), a scope
+info metric of one of the scopes (only when enabled), or what add*Metric sent for one data point of one instrument of one
+scope, with that scope's extra labels. Nothing else is ever sent. -/
+theorem collect_provenance (esc : Bytes → Bytes) (sc : Scenario) : ∀ e ∈ collect esc sc,
+    (sc.noTarget = false ∧ e = targetInfoMetric esc sc) ∨
+    (sc.noScope = false ∧ ∃ s ∈ sc.scopes, scopeInfoMetric esc sc.cfg.legacy s = some e) ∨
+    (∃ s ∈ sc.scopes, ∃ i ∈ s.insts, ∃ p ∈ i.points, FromPoint esc sc.cfg (Spec.extraKVs esc sc s) i p e) := by
+  intro e he
+  unfold collect at he
+  simp only at he
+  rcases List.mem_append.mp he with h | h
+  · left
+    split at h
+    · rename_i hc
+      simp only [Bool.and_eq_true, Bool.not_eq_true'] at hc
+      simp only [List.mem_singleton] at h
+      exact ⟨hc.1, h⟩
+    · simp at h
+  · right
+    rcases collectScopes_provenance esc sc _ sc.scopes [] e h with h1 | ⟨h2, _⟩
+    · exact Or.inl h1
+    · exact Or.inr h2
+
+/-- Values and labels for every model scrape and all data: every series sent for a data point carries the family name
+`Spec.refName`, the labels "sanitised/merged attributes ++ scope labels ++ resource constant labels", and — when the
+data point satisfies the SDK's invariants — exactly the SDK's values (`Spec.payloadFaithful`: counter/gauge value equal;
+histogram buckets are the cumulative sums of the SDK's bucket counts, `_sum`/`_count` equal; native buckets at
+offset+i+1). -/
+theorem collect_values_faithful (esc : Bytes → Bytes) (sc : Scenario) (s : Scope) (i : Inst) (p : Point) (e : Emitted)
+    (h : FromPoint esc sc.cfg (Spec.extraKVs esc sc s) i p e) :
+    e.name = Spec.refName esc sc.cfg i.name i.unit i.dtype.mtype ∧ e.typ = i.dtype.mtype ∧
+    e.labels = getAttrs esc sc.cfg.legacy p.attrs ++ Spec.extraKVs esc sc s ∧
+    (Spec.pointDataValid p.payload = true → Spec.payloadFaithful p.payload e.payload = true) := by
+  obtain ⟨name, help, hn, hp⟩ := h
+  rw [getName_shape] at hn
+  simp only [Option.some.injEq] at hn
+  obtain ⟨h1, _, h3⟩ := emitPoint_fields hp
+  exact ⟨h1.trans hn.symm, h3, emitPoint_labels hp, emitPoint_values_faithful esc _ name help _ _ p e hp⟩
+
+/-- Presence: the first instrument of a family in a scope's metric list (no earlier instrument maps to the same family
+name, and the cache does not know the name yet) is never dropped: every one of its data points that add*Metric accepts
+(`emitPoint_present`: legal name, admissible attribute set, native conversion possible) is in what is sent, with the
+instrument's own description as help. -/
+theorem first_of_family_present (esc : Bytes → Bytes) (cfg : Cfg) (extra : List KV) :
+    ∀ (pre : List Inst) (i : Inst) (rest : List Inst) (fams : List Fam) (name : Bytes),
+      getName esc cfg i.name i.unit i.dtype.mtype = some name →
+      fams.find? (fun f => f.name == name) = none →
+      (∀ j ∈ pre, getName esc cfg j.name j.unit j.dtype.mtype ≠ some name) →
+      ∀ p ∈ i.points, ∀ e, emitPoint esc cfg.legacy name i.desc i.dtype.mtype extra p = some e →
+        e ∈ (collectInsts esc cfg extra fams (pre ++ i :: rest)).2 := by
+  intro pre
+  induction pre with
+  | nil =>
+    intro i rest fams name hn hf _ p hp e he
+    simp only [List.nil_append]
+    unfold collectInsts
+    simp only [hn]
+    have hv : validate fams name i.desc i.dtype.mtype = (fams ++ [⟨name, i.desc, i.dtype.mtype⟩], false, i.desc) := by
+      unfold validate; rw [hf]
+    rw [hv]
+    simp only [Bool.false_eq_true, if_false]
+    exact List.mem_append_left _ (List.mem_filterMap.mpr ⟨p, hp, he⟩)
+  | cons j pre ih =>
+    intro i rest fams name hn hf hpre p hp e he
+    simp only [List.cons_append]
+    unfold collectInsts
+    have hj := getName_total esc cfg j.name j.unit j.dtype.mtype
+    cases hnj : getName esc cfg j.name j.unit j.dtype.mtype with
+    | none => rw [hnj] at hj; cases hj
+    | some nj =>
+      have hne : nj ≠ name := by
+        intro heq; exact hpre j (by simp) (by rw [hnj, heq])
+      have hf' := find_validate_none fams name nj j.desc j.dtype.mtype hf hne
+      have hpre' : ∀ j' ∈ pre, getName esc cfg j'.name j'.unit j'.dtype.mtype ≠ some name :=
+        fun j' hj' => hpre j' (by simp [hj'])
+      cases hv : validate fams nj j.desc j.dtype.mtype with
       | mk fams' dh =>
         cases dh with
         | mk drop help =>
-          simp only [hv] at he ⊢
+          rw [hv] at hf'
+          have := ih i rest fams' name hn hf' hpre' p hp e he
+          simp only [hnj, hv]
           cases drop with
-          | true => simp only [if_true] at he ⊢; exact ih fams' e he
+          | true => simpa using this
           | false =>
-            simp only [Bool.false_eq_true, if_false] at he ⊢
-            rcases List.mem_append.mp he with h1 | h2
-            · -- sent for this instrument: name/help/type are the cache entry just validated, which persists
-              obtain ⟨p, _, hp⟩ := List.mem_filterMap.mp h1
-              have hfields : e.name = name ∧ e.help = help ∧ e.typ = i.dtype.mtype := emitPoint_fields hp
-              obtain ⟨e1, e2, e3⟩ := hfields
-              rw [e1, e2, e3]
-              have hentry : fams'.find? (fun f => f.name == name) = some ⟨name, help, i.dtype.mtype⟩ := by
-                have := validate_entry fams name i.desc i.dtype.mtype
-                rw [hv] at this; exact this rfl
-              exact collectInsts_find_some esc cfg extra name _ rest fams' hentry
-            · exact ih fams' e h2
+            simp only [Bool.false_eq_true, if_false]
+            exact List.mem_append_right _ this
+
+/-- target_info exactly as configured: the scrape is `[target_info]` (iff not WithoutTargetInfo and the resource's labels
+are admissible) followed by the rest; target_info carries the sanitised/merged resource attributes and the value 1; and
+nothing in the rest is called target_info (given no instrument's family name is target_info). -/
+theorem target_info_as_configured (esc : Bytes → Bytes) (sc : Scenario)
+    (hnames : ∀ s ∈ sc.scopes, ∀ i ∈ s.insts, Spec.refName esc sc.cfg i.name i.unit i.dtype.mtype ≠ b "target_info") :
+    ∃ rest, collect esc sc =
+      (if !sc.noTarget && descOK sc.cfg.legacy (b "target_info") (getAttrs esc sc.cfg.legacy sc.res)
+        then [targetInfoMetric esc sc] else []) ++ rest ∧
+      (targetInfoMetric esc sc).labels = getAttrs esc sc.cfg.legacy sc.res ∧
+      (targetInfoMetric esc sc).payload = OutPayload.num 4 ∧
+      ∀ e ∈ rest, e.name ≠ b "target_info" := by
+  refine ⟨collectScopes esc sc (if sc.resConst then getAttrs esc sc.cfg.legacy sc.res else []) [] sc.scopes, rfl, rfl, rfl, ?_⟩
+  intro e he
+  rcases collectScopes_provenance esc sc _ sc.scopes [] e he with ⟨_, s, _, hs⟩ | ⟨⟨s, hs, i, hi, p, _, hf⟩, _⟩
+  · rw [(scopeInfo_fields hs).1]; decide
+  · have := (collect_values_faithful esc sc s i p e hf).1
+    rw [this]; exact hnames s hs i hi
+
+/-- otel_scope_info exactly as configured: with WithoutScopeInfo nothing is called otel_scope_info; otherwise every
+scope whose scope info metric can be created has it in the scrape (labels otel_scope_name / otel_scope_version, value 1),
+and every series of a data point of that scope carries the scope labels first among its extra labels
+(`collect_values_faithful`, `Spec.extraKVs`). -/
+theorem scope_info_as_configured (esc : Bytes → Bytes) (sc : Scenario)
+    (hnames : ∀ s ∈ sc.scopes, ∀ i ∈ s.insts, Spec.refName esc sc.cfg i.name i.unit i.dtype.mtype ≠ b "otel_scope_info") :
+    (sc.noScope = true → ∀ e ∈ collect esc sc, e.name ≠ b "otel_scope_info") ∧
+    (sc.noScope = false → ∀ s ∈ sc.scopes, ∀ si, scopeInfoMetric esc sc.cfg.legacy s = some si →
+      si ∈ collect esc sc ∧ si.payload = OutPayload.num 4 ∧
+      si.labels = getAttrs esc sc.cfg.legacy [(scopeNameLabel, s.name), (scopeVersionLabel, s.version)]) := by
+  constructor
+  · intro hns e he
+    rcases collect_provenance esc sc e he with ⟨_, h⟩ | ⟨h, _⟩ | ⟨s, hs, i, hi, p, _, hf⟩
+    · rw [h]
+      have : (targetInfoMetric esc sc).name = b "target_info" := rfl
+      rw [this]; decide
+    · rw [hns] at h; cases h
+    · rw [(collect_values_faithful esc sc s i p e hf).1]; exact hnames s hs i hi
+  · intro hns s hs si hsi
+    refine ⟨?_, (scopeInfo_fields hsi).2.2.2.1, (scopeInfo_fields hsi).2.2.2.2⟩
+    unfold collect
+    exact List.mem_append_right _ (collectScopes_scopeinfo_mem esc sc _ hns sc.scopes [] s hs si hsi)
+
+/-- Legality over the whole scrape, for ALL inputs (no validity hypothesis): every metric Collect sends — target info,
+scope info, data point series — has a legal family name, legal label names and no label name twice (the oracle's
+`namesLegal`). What is not legal is refused by the model of NewDesc and not sent; `familyName_legal` +
+`emitPoint_present` show that inside the statement's domain nothing is refused. -/
+theorem collect_all_legal (esc : Bytes → Bytes) (sc : Scenario) : ∀ e ∈ collect esc sc,
+    metricNameOK sc.cfg.legacy e.name = true ∧ e.labels.all (fun kv => labelNameOK sc.cfg.legacy kv.1) = true ∧
+    nodupKeys (e.labels.map (·.1)) = true := by
+  intro e he
+  have hdesc : ∀ n l, descOK sc.cfg.legacy n l = true →
+      metricNameOK sc.cfg.legacy n = true ∧ l.all (fun kv => labelNameOK sc.cfg.legacy kv.1) = true ∧
+      nodupKeys (l.map (·.1)) = true := by
+    intro n l h
+    unfold descOK at h
+    simp only [Bool.and_eq_true] at h
+    exact ⟨h.1.1, h.1.2, h.2⟩
+  unfold collect at he
+  simp only at he
+  rcases List.mem_append.mp he with h | h
+  · split at h
+    · rename_i hc
+      simp only [Bool.and_eq_true] at hc
+      simp only [List.mem_singleton] at h
+      subst h
+      exact hdesc _ _ hc.2
+    · simp at h
+  · rcases collectScopes_provenance esc sc _ sc.scopes [] e h with ⟨_, s, _, hs⟩ | ⟨⟨s, _, i, _, p, _, name, help, _, hp⟩, _⟩
+    · unfold scopeInfoMetric at hs
+      simp only at hs
+      split at hs
+      · rename_i hc
+        simp only [Option.some.injEq] at hs; subst hs
+        exact hdesc _ _ hc
+      · cases hs
+    · exact emitted_is_legal esc _ name help _ _ p e hp
+
+/-- One help and one type per family over the whole scrape (info metrics included), given no instrument's family name is
+one of the two info names. -/
+theorem collect_help_type_consistent (esc : Bytes → Bytes) (sc : Scenario)
+    (hnames : ∀ s ∈ sc.scopes, ∀ i ∈ s.insts,
+      Spec.refName esc sc.cfg i.name i.unit i.dtype.mtype ≠ b "target_info" ∧
+      Spec.refName esc sc.cfg i.name i.unit i.dtype.mtype ≠ b "otel_scope_info") :
+    ∀ a ∈ collect esc sc, ∀ c ∈ collect esc sc, a.name = c.name → a.help = c.help ∧ a.typ = c.typ := by
+  -- classify every sent metric
+  have cls : ∀ e ∈ collect esc sc,
+      (e.name = b "target_info" ∧ e.help = b "Target metadata" ∧ e.typ = MType.gauge) ∨
+      (e.name = b "otel_scope_info" ∧ e.help = b "Instrumentation Scope metadata" ∧ e.typ = MType.gauge) ∨
+      (e.name ≠ b "target_info" ∧ e.name ≠ b "otel_scope_info" ∧
+        (scopesFams esc sc (if sc.resConst then getAttrs esc sc.cfg.legacy sc.res else []) [] sc.scopes).find?
+          (fun f => f.name == e.name) = some ⟨e.name, e.help, e.typ⟩) := by
+    intro e he
+    unfold collect at he
+    simp only at he
+    rcases List.mem_append.mp he with h | h
+    · left
+      split at h
+      · simp only [List.mem_singleton] at h; subst h; exact ⟨rfl, rfl, rfl⟩
+      · simp at h
+    · rcases collectScopes_provenance esc sc _ sc.scopes [] e h with ⟨_, s, _, hs⟩ | ⟨⟨s, hs, i, hi, p, _, hf⟩, hfind⟩
+      · right; left
+        have := scopeInfo_fields hs
+        exact ⟨this.1, this.2.1, this.2.2.1⟩
+      · right; right
+        have hn := (collect_values_faithful esc sc s i p e hf).1
+        exact ⟨hn ▸ (hnames s hs i hi).1, hn ▸ (hnames s hs i hi).2, hfind⟩
+  intro a ha c hc hac
+  have ne12 : b "target_info" ≠ b "otel_scope_info" := by decide
+  rcases cls a ha with ⟨a1, a2, a3⟩ | ⟨a1, a2, a3⟩ | ⟨a1, a2, a3⟩ <;>
+    rcases cls c hc with ⟨c1, c2, c3⟩ | ⟨c1, c2, c3⟩ | ⟨c1, c2, c3⟩
+  · exact ⟨a2.trans c2.symm, a3.trans c3.symm⟩
+  · exact absurd (a1.symm.trans (hac.trans c1)) ne12
+  · exact absurd (hac.symm.trans a1) c1
+  · exact absurd (c1.symm.trans (hac.symm.trans a1)) ne12
+  · exact ⟨a2.trans c2.symm, a3.trans c3.symm⟩
+  · exact absurd (hac.symm.trans a1) c2
+  · exact absurd (hac.trans c1) a1
+  · exact absurd (hac.trans c1) a2
+  · rw [hac] at a3
+    rw [a3] at c3
+    simp only [Option.some.injEq, Fam.mk.injEq] at c3
+    exact ⟨c3.2.1, c3.2.2⟩
+
+/-- Gather-acceptance on the model side: for every scenario inside the oracle's domain (`Spec.scenarioValid`: API-legal
+names not colliding with the info names, admissible attribute sets, no two data points mapping to the same series),
+the modelled registry contract accepts the model's output — no help mismatch, no type mismatch, no duplicate series —
+and everything in it is legal (`emitted_is_legal`). -/
+theorem collect_accepted (esc : Bytes → Bytes) (sc : Scenario) (hv : Spec.scenarioValid esc sc = true) :
+    (gather (collect esc sc)).1 = false := by
+  unfold Spec.scenarioValid at hv
+  simp only [Bool.and_eq_true, List.all_eq_true, Bool.not_eq_true'] at hv
+  obtain ⟨⟨⟨hinst, _⟩, hdup⟩, _⟩ := hv
+  have hd : Spec.distinctSeries (collect esc sc) = true := by
+    unfold Spec.dupSeries at hdup; simpa using hdup
+  have hnames : ∀ s ∈ sc.scopes, ∀ i ∈ s.insts,
+      Spec.refName esc sc.cfg i.name i.unit i.dtype.mtype ≠ b "target_info" ∧
+      Spec.refName esc sc.cfg i.name i.unit i.dtype.mtype ≠ b "otel_scope_info" := by
+    intro s hs i hi
+    have hm : (s, i) ∈ Spec.allInsts sc := by
+      unfold Spec.allInsts
+      exact List.mem_flatMap.mpr ⟨s, hs, List.mem_map.mpr ⟨i, hi, rfl⟩⟩
+    have := hinst (s, i) hm
+    unfold Spec.instValid at this
+    simp only [Bool.and_eq_true, bne_iff_ne, ne_eq] at this
+    exact this.1.2
+  exact gather_accepts _ (collect_help_type_consistent esc sc hnames) hd
 
 /-- F34 (repaired in de0451a), documented on the OLD code: `validateMetricsOld` answered a description conflict whose
 first description is empty with help "", which the old call site read as "no conflict" — the second series kept its own
@@ -394,13 +803,49 @@ theorem exemplars_hist_rejected_none (esc : Bytes → Bytes) (legacy : Bool) (ty
     exemplarsOut esc legacy typ (.hist count sumq bounds counts) exs = [] := by
   simp [exemplarsOut, h]
 
-/-- The statement not proved (type-checked): placement of accepted exemplars on histogram buckets satisfies the oracle.
-Covered by the oracle on every scrape and by the differential check only. -/
-def exemplars_faithful_hist_statement : Prop :=
-  ∀ (esc : Bytes → Bytes) (legacy : Bool) (typ : MType) (count : Nat) (sumq : Int) (bounds : List Int) (counts : List Nat)
-    (exs : List Exemplar),
+/-- Explicit-bucket histograms, placement of accepted exemplars (bounds pairwise distinct — the SDK's are strictly
+increasing): every exposed exemplar is one of the SDK's with its value and labels and sits in the bucket its value
+belongs to (first upper bound ≥ value, else an appended +Inf bucket), every SDK exemplar's bucket shows one, each +Inf
+exemplar is shown, and no classic bucket shows two; when one exemplar is refused none is shown. This is the oracle
+`Spec.exemplarsFaithful` for histograms. -/
+theorem exemplars_faithful_hist (esc : Bytes → Bytes) (legacy : Bool) (typ : MType) (count : Nat) (sumq : Int)
+    (bounds : List Int) (counts : List Nat) (exs : List Exemplar) (hb : bounds.Nodup) :
     Spec.exemplarsFaithful esc legacy typ (.hist count sumq bounds counts) exs
-      (exemplarsOut esc legacy typ (.hist count sumq bounds counts) exs) = true
+      (exemplarsOut esc legacy typ (.hist count sumq bounds counts) exs) = true := by
+  unfold Spec.exemplarsFaithful exemplarsOut
+  simp only
+  rw [exemplars_accept_rule]
+  by_cases hacc : exs ≠ [] ∧ ∀ e ∈ exs, exemplarOK legacy (exemplarLabels esc e) = true
+  · have h1 : (!exs.isEmpty && exs.all fun e => exemplarOK legacy (exemplarLabels esc e)) = true := by
+      obtain ⟨hne, hall⟩ := hacc
+      cases exs with
+      | nil => exact absurd rfl hne
+      | cons _ _ => simpa [List.all_eq_true] using hall
+    rw [if_pos hacc]
+    simp only [h1, if_true, Bool.and_eq_true, List.all_eq_true, List.any_eq_true, beq_iff_eq]
+    refine ⟨⟨⟨?_, ?_⟩, ?_⟩, ?_⟩
+    · intro o ho
+      obtain ⟨l, hl, hol⟩ := placeHist_sound bounds _ o ho
+      obtain ⟨e, he, hel⟩ := List.mem_map.mp hl
+      refine ⟨e, he, ?_⟩
+      rw [hol, ← hel]
+      exact ⟨⟨rfl, rfl⟩, rfl⟩
+    · intro e he
+      obtain ⟨o, ho, hs⟩ := placeHist_complete bounds (exs.map fun e => (e.q, exemplarLabels esc e))
+        (e.q, exemplarLabels esc e) (List.mem_map.mpr ⟨e, he, rfl⟩)
+      exact ⟨o, ho, hs⟩
+    · rw [placeHist_inf_count, List.filter_map, List.length_map]
+      rfl
+    · exact placeHist_slots_nodup bounds _ hb
+  · have h1 : (!exs.isEmpty && exs.all fun e => exemplarOK legacy (exemplarLabels esc e)) = false := by
+      rw [Bool.eq_false_iff]
+      intro hh
+      apply hacc
+      simp only [Bool.and_eq_true, Bool.not_eq_true', List.all_eq_true] at hh
+      refine ⟨?_, hh.2⟩
+      intro hnil; rw [hnil] at hh; simp at hh
+    rw [if_neg hacc]
+    simp [h1]
 
 /-- Collect never panics in getName, whatever the instruments are. -/
 theorem collect_never_panics (esc : Bytes → Bytes) (sc : Scenario) : collectPanics esc sc = false := by
@@ -424,6 +869,42 @@ example : (validate (Spec.famsAfter [] [(b "a", b "d1", .counter), (b "x", [], .
 -- exemplars: 63 runes of ids + url_full (8) + 57 = 128 accepted, + 58 = 129 refused; value and labels unchanged
 example : (promExemplars escUnderscore false [⟨28, [(b "url.full", List.replicate 57 97)], List.replicate 32 48, List.replicate 16 48⟩]).isSome = true ∧
     promExemplars escUnderscore false [⟨28, [(b "url.full", List.replicate 58 97)], List.replicate 32 48, List.replicate 16 48⟩] = none := by
+  decide
+
+-- legality: hypotheses are satisfiable and the conclusion is about a non-trivial name
+example : Spec.apiLegalName (b "http.server/request-duration.total") = true ∧
+    Spec.nsOK ⟨true, false, false, withNamespace escUnderscore true (b "my.ns")⟩ = true ∧
+    Spec.refName escUnderscore ⟨true, false, false, withNamespace escUnderscore true (b "my.ns")⟩
+      (b "http.server/request-duration.total") (b "ms") MType.counter = b "my_ns_http_server_request_duration_milliseconds_total" ∧
+    metricNameOK true (b "my_ns_http_server_request_duration_milliseconds_total") = true := by decide
+example : Spec.labelsAdmissible escUnderscore true [(b "a.b", b "1"), (b "a_b", b "2")] [b "otel_scope_name", b "otel_scope_version"] = true ∧
+    Spec.labelsAdmissible escUnderscore true [(b "a:b", b "1")] [] = false := by decide
+example : Spec.endsWith (Spec.refName escUnderscore ⟨false, false, false, []⟩ (b "request_seconds_total") (b "s") MType.counter)
+    (b "seconds_total") = true ∧
+    Spec.refName escUnderscore ⟨false, false, false, []⟩ (b "request_seconds_total") (b "s") MType.counter = b "request_seconds_total" := by
+  decide
+
+-- a whole model scrape: two scopes' worth of structure in one, a type conflict, merged legacy labels, resource labels
+def exScenario : Scenario :=
+  ⟨⟨true, false, false, b "ns_"⟩, false, false, true, [(b "service.name", b "svc")],
+   [⟨b "m", b "v1", [⟨.sumMono, b "req.total", b "s", b "d", [⟨[(b "a.b", b "2"), (b "a_b", b "1")], .num 20, []⟩]⟩,
+                      ⟨.gauge, b "req", b "s", b "other", [⟨[], .num 8, []⟩]⟩,
+                      ⟨.hist, b "lat", b "ms", [], [⟨[], .hist 3 40 [0, 20] [1, 1, 1], []⟩]⟩]⟩]⟩
+example : Spec.scenarioValid escUnderscore exScenario = true ∧ (gather (collect escUnderscore exScenario)).1 = false ∧
+    (collect escUnderscore exScenario).map (·.name) =
+      [b "target_info", b "otel_scope_info", b "ns_req_seconds_total", b "ns_req_seconds", b "ns_lat_milliseconds"] ∧
+    ((collect escUnderscore exScenario).map (·.labels.length)) = [1, 2, 4, 3, 3] := by decide
+example : Spec.pointDataValid (.hist 3 40 [0, 20] [1, 1, 1]) = true ∧ Spec.pointDataValid (.hist 3 40 [0, 20] [1, 1]) = false := by
+  decide
+
+-- histogram exemplars: bucket of 12 is (0,20], 40 goes to (20,40], 1200 to an appended +Inf bucket; the later 16 replaces 12
+example : exemplarsOut escUnderscore false .histogram (.hist 4 1268 [0, 20, 40] [0, 2, 1, 1])
+      [⟨12, [], b "aa", b "bb"⟩, ⟨40, [], b "aa", b "bb"⟩, ⟨1200, [], b "aa", b "bb"⟩, ⟨16, [], b "aa", b "bb"⟩] =
+    [⟨.bucket 20, 16, [(b "span_id", b "bb"), (b "trace_id", b "aa")]⟩, ⟨.bucket 40, 40, [(b "span_id", b "bb"), (b "trace_id", b "aa")]⟩,
+     ⟨.inf, 1200, [(b "span_id", b "bb"), (b "trace_id", b "aa")]⟩] := by decide
+
+-- presence: in exScenario the gauge "req" comes after the counter "req.total" but maps to another family: it is sent
+example : (collect escUnderscore exScenario).any (fun e => e.name == b "ns_req_seconds" && e.payload == OutPayload.num 8) = true := by
   decide
 
 end Otel.C18
